@@ -52,7 +52,8 @@ ASSUMPTIONS = [
     "topologies: one playfield; switch-counted and entrance-switch-counted devices; pulse-coil and enable-coil "
     "ejectors; confirm_eject_type target / switch / event. Not generated: mechanical / player-controlled ejects (ball "
     "skipping), hold-coil ejectors, ball search, several playfields, entrance_switch_full_timeout; an "
-    "entrance-counted device never gets a stuck or falling-back ball (it cannot notice either); jam switches only in "
+    "entrance-counted device never gets a stuck or falling-back ball or a double kick-out (it cannot notice any of "
+    "them); jam switches only in "
     "the counter suite (idle device), not in the simulated machines",
     "the counter model covers a device that is not ejecting (no wait_for_ball_to_leave / _ball_left); that the "
     "ledger's LCount inputs are the counter's reports is validated on every simulated run by the oracle (counts = "
@@ -79,7 +80,8 @@ LEVEL_TEXT = ("Machine-checked proof (Coq). Ledger, for all traces it accepts: t
 LEVEL_NOTE = ("Proved: bookkeeping layer (all traces) and counting layer of an idle device (all switch timelines). "
               "Validated by sampled runs only: the ledger tie (real runs are accepted and every snapshot is "
               "reproduced), the counter during an eject, and that the ledger's LCount inputs are the counter's "
-              "reports. playfield.balls >= 0 is refuted in the model (pf_balls_nonneg_refuted) and reproduced on the "
+              "reports. the available balls summing to num_balls_known is refuted (available_sum_refuted, known finding, excess "
+              "tracked exactly); playfield.balls >= 0 is refuted in the model (pf_balls_nonneg_refuted) and reproduced on the "
               "code (known finding); 'no pulse towards a full device' holds for MPF's believed numbers only (known "
               "findings for late balls / two sources). The oracle clause 'a queued request is served once a ball is "
               "available' is a supplement borrowed from C05 (oracle only).")
